@@ -960,7 +960,7 @@ def _emit_family_impl(draw, S, fam, allow_set_broadcast=True, allow_ndim_dot=Fal
         axis = draw(st.sampled_from([None] + list(range(-nd, nd))))
         return S.try_emit(['sum', a, axis])
     if fam == 'prod':
-        a = _pick(draw, S, lambda r: S.ndim(r) == 1 and not S.cplx(r) and int(np.prod(S.shape(r))) <= 6)
+        a = _pick(draw, S, lambda r: S.ndim(r) in (1, 2) and not S.cplx(r) and int(np.prod(S.shape(r))) <= 6)      # (any rank since the fix of KF-prod-rank)
         if a is None:
             return False
         return S.try_emit(['prod', a])
